@@ -80,6 +80,16 @@ def gen_direct_case(rnd):
         az = rnd.choice([90.0, 270.0]) + rnd.choice([1, -1]) * v * rnd.uniform(0.0, 1.0)
         s = rnd.uniform(2e6, 2e7)
         kind = 'near-equatorial-long'
+    if rnd.random() < 0.05:
+        # lines whose arc on the auxiliary sphere is a multiple of 45 degrees (or whose mid-point arc 2 sigma_m is a multiple
+        # of 90 degrees), a hair to a micro-radian off: the trigonometric factors of the classical series vanish there
+        a_e, invf_e = tmwork.ell_published(ell)
+        mid = rnd.random() < 0.4
+        D0 = rnd.choice([1, 2, 3, 2, 2]) * (math.pi / 4) * (2 if mid else 1) + rnd.choice([0.0, 1, -1, 1, -1]) * 10 ** rnd.uniform(-12, -5.5)
+        la_, az_ = rnd.uniform(-75, 75), rnd.uniform(0, 360)
+        s_ = geod.distance_for_arc(la_, az_, D0, a_e, invf_e, two_sigma_m=mid)
+        if s_ is not None and 0 < s_ <= 2e7:
+            lat1, az, s, kind = la_, az_, s_, 'arc-multiple'
     argt = 'float'
     if rnd.random() < 0.2:
         argt = rnd.choice(ax.ANGLE_CLASSES)
@@ -248,9 +258,23 @@ def gen_inverse_case(rnd):
     for _ in range(100):
         la1 = rnd.uniform(-90, 90)
         lo1 = rnd.uniform(-180, 180)
-        m = rnd.randint(0, 11)
+        m = rnd.randint(0, 12)
         kind = ['random', 'same-parallel', 'same-meridian', 'equatorial', 'polar', 'straddle-180', 'short', 'pole-crossing',
-                'long', 'coincident', 'very-short', 'near-meridional'][m]
+                'long', 'coincident', 'very-short', 'near-meridional', 'arc-multiple'][m]
+        if m == 12:
+            # the arc on the auxiliary sphere (or the mid-point arc 2 sigma_m) a multiple of 45 / 90 degrees, a hair off
+            mid = rnd.random() < 0.4
+            D0 = rnd.choice([1, 2, 3, 2, 2]) * (math.pi / 4) * (2 if mid else 1) + rnd.choice([0.0, 1, -1, 1, -1]) * 10 ** rnd.uniform(-12, -5.5)
+            la1, az_ = rnd.uniform(-75, 75), rnd.uniform(0, 360)
+            s_ = geod.distance_for_arc(la1, az_, D0, a, invf, two_sigma_m=mid)
+            if s_ is None or not (0 < s_ <= 1.97e7):
+                continue
+            la2, lo2, _ = geod.direct(la1, lo1, az_, s_, a, invf)
+            lo2 = wrap180(lo2)
+            la2 = max(-90.0, min(90.0, la2))
+            if geod.sphsep(la1, lo1, la2, lo2) <= 178.0:
+                break
+            continue
         if m == 0 and rnd.random() < 0.3:
             # structured pairs: mirror latitudes, longitudes exactly 90 / 180 apart, both on one cardinal meridian
             kind = 'structured'
